@@ -369,6 +369,57 @@ def sniVerifyOptions (m : Mgr) (host : Str) : Option Nat :=
   | none => none
   | some (_, ci) => loadVerifyOptions ci
 
+/-! ## client-certificate authentication as the proxy wires it
+
+`proxy/options.AuthenticationOptions.ToAuthenticationConfig` + `ClientCertAuthenticationConfig.New` +
+`AuthenricatorConfig.New` (as called from `CreateProxyConfig`: the controller is the SNI verify-options provider),
+the forked `x509.Authenticator.AuthenticateRequest` (`NewSNIDynamic`), and the generic server's
+`SecureServingInfo.tlsConfig` (base `ClientAuth = RequestClientCert` iff the control plane has a client CA,
+`GetConfigForClient` wrapped by the controller). CAs are ids; a client certificate is the id of the CA that
+signed it. -/
+
+inductive AuthOutcome
+  | user        -- authenticated as the certificate's common name
+  | anonymous   -- no authenticator claimed the request: system:anonymous
+  | rejected    -- the x509 authenticator returned an error: 401
+deriving DecidableEq, Repr
+
+def AuthOutcome.toString : AuthOutcome → String
+  | .user => "user" | .anonymous => "anonymous" | .rejected => "rejected"
+
+/-- `x509.Authenticator.AuthenticateRequest`: `none` = `(nil, false, nil)`, the request goes on to the next
+    authenticator. `sniOpts` is what `sniVerifyOptionsFn(req.Host)` answers (`none` = no such function or
+    `ok == false`), `cpOpts` what the control plane's `verifyOptionsFn` answers. -/
+def x509Authenticate (sniOpts cpOpts certCA : Option Nat) : Option AuthOutcome :=
+  match certCA with
+  | none => none                         -- len(req.TLS.PeerCertificates) == 0
+  | some x =>
+    let opts := match sniOpts with
+      | some r => some r
+      | none => cpOpts
+    match opts with
+    | none => none                       -- intentionally no verify options
+    | some r => if x = r then some .user else some .rejected
+
+/-- The authenticator `ToAuthenticationConfig` / `AuthenricatorConfig.New` build (`Anonymous: true`):
+    `cfg.ClientCert` is nil only when the control plane has no client CA AND no SNI provider is handed in;
+    `sniInstalled` is `sniVerifyOptionsProvider != nil` (the shipped `CreateProxyConfig` passes the controller). -/
+def proxyAuthenticate (m : Mgr) (cp : Option Nat) (sniInstalled : Bool) (host : Str) (certCA : Option Nat) :
+    AuthOutcome :=
+  let r := if cp.isNone && !sniInstalled then none
+    else x509Authenticate (if sniInstalled then sniVerifyOptions lower m host else none) cp certCA
+  match r with
+  | some o => o
+  | none => .anonymous
+
+/-- A whole exchange through the shipped wiring: the handshake (SNI `sni`) only carries the client certificate
+    when the selected `tls.Config` requests one; then the request (Host `host`) is authenticated. -/
+def wiredExchange (m : Mgr) (base : TLS) (cp : Option Nat) (sniInstalled : Bool) (sni localAddr host : Str)
+    (certCA : Option Nat) : TLS × AuthOutcome :=
+  let cfg := wrapGetConfigForClient lower m base sni localAddr
+  let presented := if cfg.requestClientCert then certCA else none
+  (cfg, proxyAuthenticate lower m cp sniInstalled host presented)
+
 /-! ## the admission plug-in's conflict rule and the lister -/
 
 abbrev Lister := List (Str × Spec)
